@@ -163,6 +163,18 @@ Fixpoint lclass (outs : list bool) (xs : list lin) (os : list lobs) : N :=
   | _, _ => 0%N
   end.
 
+(* vocabulary of the derived theorems *)
+Fixpoint levents_of (os : list lobs) : list (nat * resp) :=
+  match os with
+  | [] => []
+  | LStarted _ _ v :: os' | LCall _ _ v :: os' => v ++ levents_of os'
+  | _ :: os' => levents_of os'
+  end.
+Fixpoint lstarted_ids (os : list lobs) : list N :=
+  match os with [] => [] | LStarted id _ _ :: os' => id :: lstarted_ids os' | _ :: os' => lstarted_ids os' end.
+Definition count_for (i : nat) (evs : list (nat * resp)) : nat := length (filter (fun e => Nat.eqb (fst e) i) evs).
+Definition lids_of (st : list lrec) : list N := map (fun r => snd (fst r)) st.
+
 Definition lobs_eqb (a b : lobs) : bool :=
   match a, b with
   | LStarted x e v, LStarted y e' v' => N.eqb x y && leffs_eqb e e' && levs_eqb v v'
